@@ -1024,6 +1024,9 @@ class Engine:
             return z3.Contains(cont.e, z3.Unit(z(item)))
         if hasattr(cont, "contains_term"):
             return cont.contains_term(item)
+        if isinstance(cont, VOpaque):
+            from specs.opaque import box as _box
+            return z3.Function("u_contains", U, U, BoolS)(cont.e, _box(item))
         raise Unsupported("`in` on %r" % (cont,))
 
     def compare(self, op, a, b, st, node):
@@ -1452,6 +1455,9 @@ class Engine:
     def apply_contract(self, st, c, args, kwargs, node=None):
         """call site of a function under contract: assert pre, havoc frame, assume (exceptional) post"""
         mod, fnode = self.contract_fnode(c)
+        if any(isinstance(d, ast.Name) and d.id == "classmethod" for d in fnode.decorator_list):
+            owner = (getattr(c, "real_name", None) or c.name).rsplit(".", 1)[0]
+            args = [VClass(owner, None)] + list(args)       # Class.method(...) on a classmethod: cls is the class it was reached through
         a = self.bind_params(fnode, args, kwargs, st, mod)
         site = "%s@L%s" % (c.name.split(".")[-1], getattr(node, "lineno", "?"))
         caller = getattr(self, "cur_contract", None)
@@ -1633,6 +1639,19 @@ class Engine:
     def st_Import(self, node, st):
         for a in node.names:
             st.env[a.asname or a.name.split(".")[0]] = VModule(a.name if a.asname else a.name.split(".")[0])
+        return [Out("next", st)]
+
+    def st_ImportFrom(self, node, st):
+        mod = self.cur_module
+        pkg = mod.qname.rsplit(".", 1)[0] if "." in mod.qname else ""
+        if node.level:
+            parts = pkg.split(".")
+            base = ".".join(parts[:len(parts) - node.level + 1])
+            modq = base + ("." + node.module if node.module else "")
+        else:
+            modq = node.module
+        for a in node.names:
+            st.env[a.asname or a.name] = self.qualified(modq + "." + a.name)
         return [Out("next", st)]
 
     def st_Delete(self, node, st):
